@@ -1,12 +1,13 @@
 #!/bin/bash
 # usage: seedall.sh  — runs every seed under /tmp/seed (or /verif/seeded) against its property, prints one line per seed
 DIR=${1:-/tmp/seed}
-for d in $(ls -d $DIR/C??-? $DIR/C??-x $DIR/C??-y 2>/dev/null | sort -u); do
+for d in $(ls -d $DIR/C??-? 2>/dev/null | sort -u); do
   id=$(basename $d); p=${id%%-*}
   [ -f /tmp/baseline_bad_$p.json ] || /verif/scripts/basebad.sh $p >/dev/null 2>&1
   out=$(/verif/scripts/seedcheck.sh $d $p 2>&1)
   suite=$(echo "$out" | grep -A2 "suite WITH" | grep "not passing now" | awk '{print $NF}')
   news=$(echo "$out" | grep -c "   NEW \[")
+  echo "$out" | grep -q "CHECKER-ERROR" && news="ERR($(echo "$out" | grep -m1 CHECKER-ERROR | cut -c1-120))"
   first=$(echo "$out" | grep -m1 "   NEW \[" | cut -c1-160)
   demoWith=$(echo "$out" | sed -n '/demo WITH change/,/check/p' | grep -c "^FAIL\|--- FAIL")
   demoWithout=$(echo "$out" | sed -n '/demo WITHOUT change/,/suite WITH/p' | grep -c "^FAIL\|--- FAIL")
